@@ -16,6 +16,9 @@ import traceback
 import warnings
 
 ROOT = os.path.dirname(os.path.dirname(os.path.abspath(__file__)))
+# where evidence/ and replays/ are written: /verif, unless the seeded-change matrix (tools/seed_matrix.sh) redirects a run against a scratch
+# worktree (PYV_REPO) to a scratch directory so that nothing committed is touched by a run on a changed tree
+OUT = os.environ.get("PYV_OUT", ROOT)
 sys.path.insert(0, ROOT)
 warnings.simplefilter("ignore")
 
@@ -200,7 +203,7 @@ def report(out, seed):
     known = load_known()
     expected_path = os.path.join(ROOT, "expected_discharged.json")
     expected = json.load(open(expected_path)) if os.path.exists(expected_path) else {}
-    rdir = os.path.join(ROOT, "replays", pid)
+    rdir = os.path.join(OUT, "replays", pid)
     os.makedirs(rdir, exist_ok=True)
     for f in os.listdir(rdir):
         os.unlink(os.path.join(rdir, f))
@@ -371,7 +374,7 @@ def report(out, seed):
     ev = {"property_id": pid, "tier": tier, "seed": seed, "level": level, "coverage": cov,
           "assumptions": sorted(assumptions) + list(getattr(mod, "ASSUMPTIONS", [])),
           "wall_s": round(out["wall_s"], 2), "violations": violations}
-    os.makedirs(os.path.join(ROOT, "evidence"), exist_ok=True)
+    os.makedirs(os.path.join(OUT, "evidence"), exist_ok=True)
     partial = bool(out.get("only"))  # --only runs a subset for debugging: no evidence is written from it
     try:
         if partial:
@@ -385,7 +388,7 @@ def report(out, seed):
     except Exception as e:
         checker_errors.append("evidence does not validate: %s" % str(e)[:300])
     if not partial:
-        json.dump(ev, open(os.path.join(ROOT, "evidence", pid + ".json"), "w"), indent=1, default=str)
+        json.dump(ev, open(os.path.join(OUT, "evidence", pid + ".json"), "w"), indent=1, default=str)
     print("%s tier=%s: obligations=%d discharged=%d (z3 %d, cvc5 %d, closed-eval %d, frame %d) undecided=%d | bounded evaluations=%d distinct=%d | %.1fs" % (
         pid, tier, n_obl, n_dis, by_backend["z3"], by_backend["cvc5"], by_backend["closed-eval"], by_backend["frame"],
         len(undecided), b.evaluations, len(b.nontrivial), out["wall_s"]))
